@@ -152,7 +152,8 @@ Proof.
   { intros x Hx. destruct (t_find h x) as [y|] eqn:Ey; [|rewrite t_delete_none; [lia|exact Ey]].
     rewrite (Hold _ _ Hx Ey). lia. }
   rewrite Es'. cbn [stabs with_tabs]. rewrite (t_delete_none _ _ Hhd).
-  replace (hbonus (length (s_all s)) (t_append h (re r) hd)) with (hbonus (length (s_all s)) hd) by reflexivity.
+  assert (Hhb : (hbonus (length (s_all s)) (t_append h (re r) hd) <= hbonus (length (s_all s)) hd)%nat).
+  { unfold hbonus. destruct (compactable (t_append h (re r) hd)) eqn:Eap; [rewrite (compactable_append _ _ _ Eap)|]; lia. }
   pose proof (tsum_map_lt (t_delete h) older t Hwold Hin1 Hwt). lia.
 Qed.
 
